@@ -33,6 +33,10 @@ BANNERS = [
     ("versionless", "EBBv13_and_above EB"),
     # another maker's controller that also announces a firmware version (new enough, even)
     ("foreign-versioned", "Acme Motion Controller Firmware Version 4.1.0"),
+    # a device (or an EBB with a half-typed command in its buffer) that answers with an error line
+    ("error-line", "!8 Err: Unknown command 'v'"),
+    # a release candidate of the minimum itself: older than the minimum
+    ("old-3.0.2rc1", PREFIX + "3.0.2rc1"),
 ]
 GOOD = {"min", "new-3.0.10", "new-10.0.0"}
 
@@ -496,7 +500,7 @@ def run(ctx):
                 "both layers, plus 42 ordered pairs of boards alive side by side x 6 threshold orders "
                 "asked a, b, a (answers are per object); (b) connect() histories (connect+6 requests; connect,connect; "
                 "connect,disconnect,connect) x given_name {None, matching, missing} x every "
-                f"environment vector with <= {bound} deviations (open failure, 10 banner kinds per "
+                f"environment vector with <= {bound} deviations (open failure, 12 banner kinds per "
                 "probe, late/silent/error replies, raising reads and writes), and the gate with "
                 "MIN_VERSION_STRING raised or lowered (5 minima x 11 boards x subclass / "
                 "instance / class attribute); (c) 5 legacy gates "
